@@ -313,16 +313,20 @@ def _run_ops(ops):
 
         def scramble(self):
             for a, _c, _d, _sh in self.items:
+                if not a.flags.writeable:
+                    continue
                 if a.dtype == bool:
                     a[...] = ~a
                 elif a.size:
                     a[...] = a[::-1].copy()
 
     def spacing_array(sp):
-        return np.array(sp, dtype=np.int64)
+        return L(np.array(sp, dtype=np.int64))
 
     def scramble_spacing(a):
         """another valid-looking model with the same largest offset where possible (a stale alias must show)."""
+        if not a.flags.writeable:
+            return
         if len(a) >= 3:
             order = np.argsort(a, kind="stable")
             i0, i1 = order[0], order[1]
@@ -345,11 +349,73 @@ def _run_ops(ops):
             else:
                 a[lo], a[hi] = a[hi], a[lo]
 
+    import zlib
+    LAY = {"on": True, "op": "", "i": 0}
+
+    def L(a):
+        """The same values in another memory layout / dtype (chosen deterministically per op and argument):
+        the property does not depend on how an argument array is laid out in memory."""
+        if not LAY["on"] or a.size == 0:
+            return a
+        LAY["i"] += 1
+        h = zlib.crc32(f"{LAY['op']}#{LAY['i']}".encode())
+        if a.ndim == 1:
+            v = h % 7
+            if v == 1:                                   # every second element of a longer buffer
+                base = np.zeros(2 * len(a), dtype=a.dtype)
+                base[::2] = a
+                return base[::2]
+            if v == 2:                                   # negative stride
+                return a[::-1].copy()[::-1]
+            if v == 3:                                   # read-only
+                b = a.copy()
+                b.setflags(write=False)
+                return b
+            if v == 4:                                   # column of a wider 2-D array
+                wide = np.zeros((len(a), 3), dtype=a.dtype)
+                wide[:, 1] = a
+                return wide[:, 1]
+            if v == 5:                                   # another castable dtype
+                if a.dtype == np.int64 and a.min() >= 0 and a.max() < 2**31:
+                    return a.astype([np.int32, np.uint32, np.uint64][(h // 7) % 3])
+                if a.dtype == np.uint8:
+                    return a.astype([np.uint16, np.uint32, np.uint64][(h // 7) % 3])
+            return a
+        if a.ndim == 2:
+            if a.min() >= 0 and a.max() < 2**31:
+                a = a.astype([np.int64, np.uint32, np.uint32, np.int32][(h // 7) % 4])
+            v = h % 7
+            if v == 1:
+                return np.asfortranarray(a)
+            if v == 2:                                   # column slice of a wider array
+                wide = np.zeros((a.shape[0], a.shape[1] + 1), dtype=a.dtype)
+                wide[:, :a.shape[1]] = a
+                return wide[:, :a.shape[1]]
+            if v == 3:                                   # transposed view of a (2, n) array
+                return a.T.copy().T
+            if v == 4:                                   # every second row
+                base = np.zeros((2 * a.shape[0], a.shape[1]), dtype=a.dtype)
+                base[::2] = a
+                return base[::2]
+            if v == 5:
+                b = a.copy()
+                b.setflags(write=False)
+                return b
+            if v == 6:                                   # second column block of a wider array
+                wide = np.zeros((a.shape[0], a.shape[1] + 2), dtype=a.dtype)
+                wide[:, 2:] = a
+                return wide[:, 2:]
+            return a
+        return a
+
     def i64(xs):
-        return np.array(xs, dtype=np.int64)
+        return L(np.array(xs, dtype=np.int64))
+
+    def boolarr(xs):
+        return L(np.array(xs, dtype=bool))
 
     def mkseq(codes):
-        code = np.array(codes, dtype=np.uint8)
+        code = L(np.array(codes, dtype=np.uint8))
         if all(c < st["n"] for c in codes):
             s = bseq.GeneralSequence(st["base"])
             s.code = code
@@ -409,13 +475,13 @@ def _run_ops(ops):
         if ka is None:
             return "no-alph"
         if c == "kmers":
-            return "ok " + _nats(ka.create_kmers(np.array(_parse_nats(w[1]), dtype=np.uint8)))
+            return "ok " + _nats(ka.create_kmers(L(np.array(_parse_nats(w[1]), dtype=np.uint8))))
         if c == "fuse":
             return f"ok {int(ka.fuse(i64(_parse_nats(w[1]))))}"
         if c == "simk":
             return "ok " + _nats(sorted(int(x) for x in mkrule(w[2], w[3]).similar_kmers(ka, int(w[1]))))
         if c == "mask":
-            m = np.array(_parse_bits(w[1]), dtype=bool)
+            m = boolarr(_parse_bits(w[1]))
             from biotite.sequence.align import kmertable as KT
             return "ok " + _bits(KT._prepare_mask(ka, m, len(m)))
         if c in ("seqs", "kms", "sel"):
@@ -430,14 +496,14 @@ def _run_ops(ops):
                     g.add(sq.code)
                 rid = None if w[2] == "-" else g.add(i64(_parse_nats(w[2])))
                 ms = _parse_masks(w[4], len(seqs))
-                ms = None if ms is None else [None if m is None else g.add(np.array(m, dtype=bool)) for m in ms]
+                ms = None if ms is None else [None if m is None else g.add(boolarr(m)) for m in ms]
                 sp_arr = None if st["sp"] is None else spacing_array(st["sp"])
                 t = cls.from_sequences(st["k"], seqs, rid, ms, alphabet=st["base"], spacing=sp_arr, **kw)
             elif c == "kms":
                 kms = [g.add(i64(x)) for x in _parse_lists(w[3])]
                 rid = None if w[2] == "-" else g.add(i64(_parse_nats(w[2])))
                 ms = _parse_masks(w[4], len(kms))
-                ms = None if ms is None else [None if m is None else g.add(np.array(m, dtype=bool)) for m in ms]
+                ms = None if ms is None else [None if m is None else g.add(boolarr(m)) for m in ms]
                 t = cls.from_kmers(ka, kms, rid, ms, **kw)
             else:
                 poss = [g.add(i64(x)) for x in _parse_lists(w[3])]
@@ -451,7 +517,7 @@ def _run_ops(ops):
             return add(t, nb is not None) + (" |argument-modified" if modified else "")
         if c == "pos":
             g = Guard()
-            d = {k: g.add(np.array(ps, dtype=np.int64).reshape(-1, 2)) for k, ps in _parse_dict(w[1])}
+            d = {k: g.add(L(np.array(ps, dtype=np.int64).reshape(-1, 2))) for k, ps in _parse_dict(w[1])}
             t = align.KmerTable.from_positions(ka, d)
             modified = g.changed()
             g.scramble()
@@ -476,10 +542,10 @@ def _run_ops(ops):
                 m = t.match_kmer_selection(np.arange(len(kms)), kms)
                 return "ok " + _tuples((kms[i], r, p) for i, r, p in m.tolist())
             if c == "match":
-                mask = None if w[3] == "-" else np.array(_parse_bits(w[3]), dtype=bool)
+                mask = None if w[3] == "-" else boolarr(_parse_bits(w[3]))
                 return "ok " + _tuples(t.match(mkseq(_parse_nats(w[2])), ignore_mask=mask).tolist())
             if c == "matchsim":
-                mask = None if w[3] == "-" else np.array(_parse_bits(w[3]), dtype=bool)
+                mask = None if w[3] == "-" else boolarr(_parse_bits(w[3]))
                 return "ok " + _tuples(t.match(mkseq(_parse_nats(w[2])), similarity_rule=mkrule(w[4], w[5]),
                                                ignore_mask=mask).tolist())
             if c == "matchsel":
@@ -528,6 +594,16 @@ def _run_ops(ops):
 
     out = []
     for op in ops:
+        LAY.update(on=True, op=op, i=0)
+        try:
+            out.append(one(op))
+            continue
+        except (TypeError, ValueError, BufferError):
+            pass                 # possibly a layout / dtype / read-only buffer the real code rejects: redo with plain arrays
+        except Exception as e:  # noqa: BLE001
+            out.append("ERR:" + type(e).__name__)
+            continue
+        LAY.update(on=False, i=0)
         try:
             out.append(one(op))
         except Exception as e:  # noqa: BLE001
